@@ -14,7 +14,7 @@ import (
 // id of its first valid vote of the step and the set of block ids it validly signed.
 type oracleState struct {
 	first   [4]int8 // -1 = nothing yet
-	offered uint16  // bit 4*i+b: validator i validly signed block id b
+	offered uint32  // bit nBlk*i+b: validator i validly signed block id b
 }
 
 func newOracle() oracleState { return oracleState{first: [4]int8{-1, -1, -1, -1}} }
@@ -26,11 +26,11 @@ func (o oracleState) apply(t *token) oracleState {
 	if o.first[t.cv] < 0 {
 		o.first[t.cv] = int8(t.cb)
 	}
-	o.offered |= 1 << uint(4*t.cv+t.cb)
+	o.offered |= 1 << uint(nBlk*t.cv+t.cb)
 	return o
 }
 
-func (o oracleState) has(i, b int) bool { return o.offered>>uint(4*i+b)&1 == 1 }
+func (o oracleState) has(i, b int) bool { return o.offered>>uint(nBlk*i+b)&1 == 1 }
 
 // signers returns the mask of validators that validly signed block id b.
 func (o oracleState) signers(n, b int) int {
